@@ -3,13 +3,18 @@
 // with a schedule (emitted by TLC from MC_Threads) or free-running (under TSan).
 #include <atomic>
 #include <condition_variable>
+#include <array>
 #include <limits>
+#include <map>
 #include <mutex>
+#include <tuple>
 #include <thread>
 
 #include <nop/serializer.h>
 #include <nop/structure.h>
 #include <nop/table.h>
+#include <nop/types/optional.h>
+#include <nop/types/result.h>
 #include <nop/types/thread_local.h>
 #include <nop/types/variant.h>
 #include <nop/utility/buffer_reader.h>
@@ -18,14 +23,29 @@
 #include "ops.h"
 
 namespace vf {
+namespace { struct TlTable; struct TlStruct; struct TlLbuf; }
+}
+namespace vf {
 void RunRpcCalls(const std::string& iface, const Json& calls, JsonOut& o);
 namespace {
 
+// same shapes as the pool types "TA", "SA", "SL2" (their schemas are looked up by these ids)
 struct TlTable {
-  nop::Entry<std::uint32_t, 0> a;
-  nop::Entry<std::string, 1> b;
-  NOP_TABLE(TlTable, a, b);
+  nop::Entry<std::uint8_t, 0> e0;
+  nop::Entry<std::string, 1> e1;
+  NOP_TABLE(TlTable, e0, e1);
 };
+struct TlStruct {
+  std::uint8_t m0{};
+  std::string m1;
+  NOP_STRUCTURE(TlStruct, m0, m1);
+};
+struct TlLbuf {
+  std::uint8_t d0[4]{};
+  std::uint16_t c0{};
+  NOP_STRUCTURE(TlLbuf, (d0, c0));
+};
+enum class TlErr : std::uint8_t { None = 0, A = 1, B = 2 };
 
 struct Step {
   int t;
@@ -74,7 +94,32 @@ void RoundTrip(const char* tid, const T& v, std::string* extra) {
   o.key("v2"); Abs<T>::to(back, o);
   *extra = o.s;
 }
+}  // namespace
+template <> struct Abs<TlTable, void> {
+  static void to(const TlTable& v, JsonOut& o) { o.begin_obj(); o.key("t"); o.begin_arr(); EntryTo(v.e0, o); EntryTo(v.e1, o); o.end_arr(); o.end_obj(); }
+  static bool from(const Json&, TlTable&) { return false; }
+};
+template <> struct Abs<TlStruct, void> {
+  static void to(const TlStruct& v, JsonOut& o) { o.begin_obj(); o.key("m"); o.begin_arr(); Abs<std::uint8_t>::to(v.m0, o); Abs<std::string>::to(v.m1, o); o.end_arr(); o.end_obj(); }
+  static bool from(const Json&, TlStruct&) { return false; }
+};
+template <> struct Abs<TlLbuf, void> {
+  static void to(const TlLbuf& v, JsonOut& o) { o.begin_obj(); o.key("m"); o.begin_arr(); LbufTo(v.d0, v.c0, 4, o); o.end_arr(); o.end_obj(); }
+  static bool from(const Json&, TlLbuf&) { return false; }
+};
+namespace {
 void RunCodec(int t, int k, std::string* extra) {
+  switch (k % 12) {
+    case 4: { std::map<std::uint32_t, std::string> m; for (int i = 0; i < 1 + (k % 3); i++) m[static_cast<std::uint32_t>(1000 * t + i)] = std::string(static_cast<size_t>(i + 1), static_cast<char>('A' + t)); RoundTrip<std::map<std::uint32_t, std::string>>("map<u32,str8>", m, extra); return; }
+    case 5: { TlTable tb; tb.e0 = static_cast<std::uint8_t>(200 + t); if (k % 2) tb.e1 = std::string("e") + static_cast<char>('0' + t); RoundTrip<TlTable>("TA", tb, extra); return; }
+    case 6: { nop::Optional<std::string> o; if (k % 24 < 12) o = std::string(static_cast<size_t>(2 + t), 'o'); RoundTrip<nop::Optional<std::string>>("opt<str8>", o, extra); return; }
+    case 7: { std::tuple<std::uint8_t, std::string, std::vector<std::uint8_t>> tp{static_cast<std::uint8_t>(t), std::string("tp"), {static_cast<std::uint8_t>(k), 255}}; RoundTrip<decltype(tp)>("tup<u8,str8,vec<u8>>", tp, extra); return; }
+    case 8: { std::array<std::int32_t, 3> a{{t, -k, 70000 * (t + 1)}}; RoundTrip<decltype(a)>("arr<i32,3>", a, extra); return; }
+    case 9: { TlStruct sv; sv.m0 = static_cast<std::uint8_t>(130 + t); sv.m1 = std::string(static_cast<size_t>(1 + k % 4), 's'); RoundTrip<TlStruct>("SA", sv, extra); return; }
+    case 10: { TlLbuf lb; lb.c0 = static_cast<std::uint16_t>(k % 5); for (int i = 0; i < 4; i++) lb.d0[i] = static_cast<std::uint8_t>(16 * t + i); RoundTrip<TlLbuf>("SL2", lb, extra); return; }
+    case 11: { nop::Result<TlErr, std::uint32_t> r; if (k % 24 < 12) r = static_cast<std::uint32_t>(70000u + t); else r = TlErr::B; RoundTrip<decltype(r)>("res<Erru8,u32>", r, extra); return; }
+    default: break;
+  }
   switch (k % 4) {
     case 0: RoundTrip<std::uint32_t>("u32", static_cast<std::uint32_t>(1000003u * (t + 1) + k), extra); break;
     case 1: RoundTrip<std::string>("str8", std::string(static_cast<size_t>(3 + (k + t) % 5), static_cast<char>('a' + t)), extra); break;
